@@ -248,10 +248,14 @@ class Ids:
 
     def payload(self, rng, length):
         self.n += 1
+        if length == 0:
+            return []
+        if length == 1:
+            return [self.n % 250 + 1]
         body = [self.n // 250 + 1, self.n % 250 + 1]
         while len(body) < length:
             body.append(rng.randrange(256))
-        return body[:max(length, 2)]
+        return body[:length]
 
 
 def gen_udp_script(rng, nsteps=None, flavour=None):
@@ -325,7 +329,7 @@ def gen_udp_script(rng, nsteps=None, flavour=None):
                     a = rand_addr(h)
                     ps = known_ports(a, h)
                     port = rng.choice(ps) if ps and rng.random() < 0.85 else rng.choice(PORTS)
-                    plen = rng.choice([2, 3, 5, 8, 12, 20])
+                    plen = rng.choice([0, 0, 1, 2, 3, 5, 8, 12, 20])
                     cmds.append(["send", s, a, port, ids.payload(rng, plen), rng.choice(["send_to", "try_send_to"])])
                 elif r < 0.72:
                     if slow[h] and rng.random() < 0.7:
@@ -398,13 +402,69 @@ def exhaustive_routing():
     return out
 
 
+def boundary_cases():
+    """Deterministic: payloads of 0, 1, b-1, b, b+1 bytes for receive buffers b in
+    {0, 1, 2, 5}, to every destination class (remote, same host, 127.0.0.1,
+    broadcast, multicast), read back on each receive path, then drained."""
+    out = []
+    classes = [("remote", {"h": 1}, [1]), ("same", {"h": 0}, [0]), ("lo", {"lo": 1}, [0]),
+               ("bcast", "bcast", [0, 1]), ("mcast", {"m": 1}, [0, 1])]
+    for v6 in (False, True):
+        for cname, dst, rhosts in classes:
+            if v6 and cname == "bcast":
+                continue
+            for b in ((0, 1, 2, 5) if not v6 else (1,)):
+                for mode in ("try", "recv", "readable"):
+                    sizes = sorted({0, 1, max(b - 1, 0), b, b + 1})
+                    setup = {"0": [["bind", 1, "any", 9001], ["set_broadcast", 1, True], ["bind", 2, "any", 9000], ["join", 2, 1]],
+                             "1": [["bind", 1, "any", 9000], ["join", 1, 1]]}
+                    sends = []
+                    for idx, sz in enumerate(sizes):
+                        payload = [(idx * 16 + j + 1) % 256 for j in range(sz)]
+                        sends.append(["send", 1, dst, 9000, payload, "send_to" if idx % 2 == 0 else "try_send_to"])
+                    reads = {}
+                    for hh in (0, 1):
+                        sid = 2 if hh == 0 else 1
+                        cmds = []
+                        for _ in range(len(sizes) + 1):
+                            if mode == "readable":
+                                cmds.append(["recv", sid, b, "readable"])
+                                cmds.append(["recv", sid, b, "try"])
+                            else:
+                                cmds.append(["recv", sid, b, mode])
+                        cmds += [["recv", sid, 64, "try"], ["recv", sid, 64, "try"]]
+                        reads[str(hh)] = cmds
+                    steps = [{"hosts": setup}, {"hosts": {"0": sends}}, {"hosts": {}}, {"hosts": {}}, {"hosts": reads}]
+                    out.append({"cfg": {"nhosts": 2, "v6": v6, "cap": 16, "seed": 1, "min_ms": 0, "max_ms": 0,
+                                        "random_order": False}, "steps": steps, "flavour": "udp-boundary"})
+    # multicast fan-out around a local member with multicast loop switched off, every join order
+    import itertools
+    for v6 in (False, True):
+        for order in itertools.permutations([0, 1, 2]):
+            for loop_off_host in (0, 1):
+                steps = []
+                for hh in order:
+                    cmds = [["bind", 1, "any", 9000], ["join", 1, 1]]
+                    if hh == loop_off_host:
+                        cmds.append(["set_mloop", 1, False])
+                    steps.append({"hosts": {str(hh): cmds}})
+                steps.append({"hosts": {"0": [["send", 1, {"m": 1}, 9000, [1, 2, 3], "send_to"], ["send", 1, {"m": 1}, 9000, [], "try_send_to"]],
+                                        "1": [["send", 1, {"m": 1}, 9000, [2, 2], "try_send_to"]]}})
+                steps += [{"hosts": {}}, {"hosts": {}}]
+                steps.append({"hosts": {str(hh): [["recv", 1, 64, "try"]] * 5 for hh in (0, 1, 2)}})
+                out.append({"cfg": {"nhosts": 3, "v6": v6, "cap": 16, "seed": 1, "min_ms": 0, "max_ms": 0,
+                                    "random_order": False}, "steps": steps, "flavour": "udp-mcast-loop"})
+    return out
+
+
 def case_signature(case):
     return json.dumps([case["cfg"]["nhosts"], case["cfg"]["cap"], case["cfg"]["v6"], case["steps"]], sort_keys=True)
 
 
 def histogram(cases):
     h = {"cases": len(cases), "hosts": {}, "caps": {}, "v6": 0, "random_order": 0, "max_latency_ms": {},
-         "cmds": {}, "send_classes": {}, "recv_modes": {}, "bind_kinds": {}, "flavours": {}}
+         "cmds": {}, "send_classes": {}, "recv_modes": {}, "bind_kinds": {}, "flavours": {},
+         "payload_lengths": {}, "recv_buffers": {}}
     for c in cases:
         cfg = c["cfg"]
         h["hosts"][str(cfg["nhosts"])] = h["hosts"].get(str(cfg["nhosts"]), 0) + 1
@@ -421,8 +481,12 @@ def histogram(cases):
                         a = cmd[2]
                         cl = a if isinstance(a, str) else list(a)[0]
                         h["send_classes"][cl] = h["send_classes"].get(cl, 0) + 1
+                        pl = str(len(cmd[4])) if len(cmd[4]) < 3 else "3+"
+                        h["payload_lengths"][pl] = h["payload_lengths"].get(pl, 0) + 1
                     elif cmd[0] == "recv":
                         h["recv_modes"][cmd[3]] = h["recv_modes"].get(cmd[3], 0) + 1
+                        bl = str(cmd[2]) if cmd[2] < 3 else "3+"
+                        h["recv_buffers"][bl] = h["recv_buffers"].get(bl, 0) + 1
                     elif cmd[0] == "bind":
                         key = cmd[2] + (":0" if cmd[3] == 0 else "")
                         h["bind_kinds"][key] = h["bind_kinds"].get(key, 0) + 1
